@@ -103,6 +103,14 @@ def r19_2(ctx: Ctx):
             d = ctx.prog.dotted(c.func, m)
             ok = d is not None and d.startswith("dill.")
             obs.append(ctx.ob("R19.2", f, c, status=OK if ok else VIOLATION, detail=f"serialised with {d}" if ok else f"`{norm(c.func)}` resolves to `{d}`: the stdlib pickle cannot serialise the lambdas held by problems and multiwinner utilities", construct=f"{name}:serializer"))
+            # options that change WHAT dill captures: with recurse=True a function pickled by value (a lambda objective, a
+            # function defined in the running script) comes back with private copies of the module globals it uses, so the
+            # restored tree no longer shares state (counters, ledgers, caches) with the objects of the live program
+            for k in c.keywords:
+                if k.arg in ("recurse", "byref") and not (isinstance(k.value, ast.Constant) and k.value.value is False):
+                    obs.append(ctx.ob("R19.2", f, k.value, status=VIOLATION if k.arg == "recurse" else INCONCLUSIVE, detail=f"`{norm(c)[:70]}` sets dill's `{k.arg}`: " + ("functions pickled by value are restored with copies of the globals they refer to; the restored objective reads and writes its own copies, not the program's (evaluation ledgers, caches and counters kept in module state diverge from the restored tree's accounting)" if k.arg == "recurse" else "objects are then pickled by reference and must be importable where the snapshot is loaded"), construct=f"{name}:option:{k.arg}"))
+                elif k.arg not in (None, "protocol", "recurse", "byref", "fix_imports", "buffer_callback"):
+                    obs.append(ctx.ob("R19.2", f, k.value, status=INCONCLUSIVE, detail=f"`{norm(c)[:70]}` passes `{k.arg}` to the serializer", construct=f"{name}:option:{k.arg}"))
     return obs
 
 
